@@ -213,10 +213,15 @@ func c06Case(c *Ctx) error {
 	var ops, steps []string
 	fam := map[string]bool{}
 	okN := 0
+	obsOverride := "" // the observation to record for the next operation, when it is not the present state
 	record := func(family, term, msg, ev string) {
 		e := c06Err(family, msg)
 		ops = append(ops, term)
-		steps = append(steps, fmt.Sprintf("(%s, %s, %s)", e, ev, cw.uObs()))
+		obs := cw.uObs()
+		if obsOverride != "" {
+			obs, obsOverride = obsOverride, ""
+		}
+		steps = append(steps, fmt.Sprintf("(%s, %s, %s)", e, ev, obs))
 		c.Count(family + "_" + strings.SplitN(strings.TrimPrefix(e, "Some "), " ", 2)[0])
 		if e == "None" {
 			okN++
@@ -320,6 +325,43 @@ func c06Case(c *Ctx) error {
 				s = feeAddr // the fee then moves from the sender to the sender
 			}
 			amt := edgeAmount(c, cw.bal(balance.BalanceTypeToken, s, ""))
+			if rng.Intn(4) == 0 {
+				// two transfers of one sender in ONE batch, the first mostly of the whole balance: the second must see what the
+				// first left. The state between them is taken from a run of the batch cut after the first transaction, on a copy
+				// of the ledger; the errors come from the full batch.
+				if rng.Intn(3) > 0 {
+					amt = cw.bal(balance.BalanceTypeToken, s, "")
+				}
+				to2 := pick()
+				amt2 := big.NewInt(int64(1 + rng.Intn(50)))
+				if rng.Intn(3) == 0 {
+					amt2 = new(big.Int).Set(amt)
+				}
+				cw.nonce++
+				s1 := w.Submit("tt", "transfer", w.SignedArgs("tt", "transfer", s, strconv.FormatUint(cw.nonce, 10), to.AddrString(), amt.String(), "ref"))
+				cw.nonce++
+				s2 := w.Submit("tt", "transfer", w.SignedArgs("tt", "transfer", s, strconv.FormatUint(cw.nonce, 10), to2.AddrString(), amt2.String(), "ref"))
+				if s1.OK() && s2.OK() {
+					chn := w.Peer.Channels["tt"]
+					snap := stateSnapshot(chn)
+					w.ExecBatchIDs("tt", s1.TxID)
+					mid := cw.uObs()
+					chn.State = map[string][]byte{}
+					for k, v := range snap {
+						chn.State[k] = []byte(v)
+					}
+					out := w.ExecBatchIDs("tt", s1.TxID, s2.TxID)
+					m1, m2 := "BATCH FAILED: "+out.Res.Message, "BATCH FAILED: "+out.Res.Message
+					if out.Resp != nil && len(out.Resp.GetTxResponses()) == 2 {
+						m1, m2 = out.Resp.GetTxResponses()[0].GetError().GetError(), out.Resp.GetTxResponses()[1].GetError().GetError()
+					}
+					obsOverride = mid
+					record("tok", fmt.Sprintf("UTok (OTransfer %d %d %s)", s.N(), to.N(), coqZ(amt)), m1, "None")
+					record("tok", fmt.Sprintf("UTok (OTransfer %d %d %s)", s.N(), to2.N(), coqZ(amt2)), m2, "None")
+					c.Count("transfer_pair_in_one_batch")
+					continue
+				}
+			}
 			msg := tokRun(s, "transfer", to.AddrString(), amt.String(), "ref")
 			record("tok", fmt.Sprintf("UTok (OTransfer %d %d %s)", s.N(), to.N(), coqZ(amt)), msg, "None")
 		case r < 31: // fee configuration
@@ -449,8 +491,16 @@ func c06Case(c *Ctx) error {
 				}
 				amt := edgeAmount(c, b)
 				viaTask := rng.Intn(2) == 0
-				msg, _ := cw.swBeginS("tt", u, id, tok, "VT", amt.String(), key, viaTask)
-				record("swap", fmt.Sprintf("USwap (SBegin %d %d %d %d 2 %s %d)", u.N(), cw.idN(id), s, g, coqZ(amt), swKeyN(key)), msg, "None")
+				// towards the other channel - or, now and then, towards the own one (accepted: such a swap has an origin record
+				// only, which its owner can cancel but never complete)
+				to := []string{"VT", "VT", "VT", "TT"}[rng.Intn(4)]
+				msg, _ := cw.swBeginS("tt", u, id, tok, to, amt.String(), key, viaTask)
+				record("swap", fmt.Sprintf("USwap (SBegin %d %d %d %d %d %s %d)", u.N(), cw.idN(id), s, g, cw.chNum(to), coqZ(amt), swKeyN(key)), msg, "None")
+				if to == "TT" && msg == "" && rng.Intn(3) > 0 {
+					// ... its owner tries, with the right key
+					dmsg, ev := cw.swUserDone("tt", id, key)
+					record("swap", fmt.Sprintf("USwap (SUserDone %d %d)", cw.idN(id), swKeyN(key)), dmsg, ev)
+				}
 			case 2:
 				msg := cw.swCancel("tt", u1, id)
 				record("swap", fmt.Sprintf("USwap (SCancel %d)", cw.idN(id)), msg, "None")
